@@ -427,7 +427,8 @@ class AttributeCollection(MutableMapping[int, Attribute]):
 
         try:
             # We do not care if the attribute are transitive or not as we do not redistribute
-            flag = Attribute.Flag(data[0])
+            # RFC 4271 4.3: the lower-order four bits of the flags are unused and ignored when received
+            flag = Attribute.Flag(data[0] & 0xF0)
             aid = data[1]
         except IndexError:
             self.add(TreatAsWithdraw())
